@@ -69,8 +69,9 @@ func (s *logSink) Stats() (int, int) {
 
 // abortInfo is what a goroutine that hit log.Panic* leaves behind.
 type abortInfo struct {
-	Msg string
-	Err string
+	Msg  string
+	Err  string
+	Goid int64
 }
 
 var (
@@ -89,7 +90,7 @@ func takeAborts() []abortInfo {
 
 func installAbortHook() {
 	rlog.VerifOnPanic = func(msg string, err error) {
-		ai := abortInfo{Msg: msg}
+		ai := abortInfo{Msg: msg, Goid: goid()}
 		if err != nil {
 			ai.Err = err.Error()
 		}
@@ -134,4 +135,29 @@ func init() {
 		rlog.StdLog.SetLevel(rlog.LEVEL_INFO) // all levels are exercised by the C19 driver
 	}
 	installAbortHook()
+}
+
+// runAbortableOwn is runAbortable, but only an abort of f's own goroutine counts (families whose
+// earlier scenarios leave goroutines behind that may abort later, e.g. reconnect loops).
+func runAbortableOwn(f func()) (ab *abortInfo, pan string) {
+	done := make(chan struct{})
+	var me int64
+	go func() {
+		defer close(done)
+		defer func() {
+			if r := recover(); r != nil {
+				pan = fmt.Sprint(r)
+			}
+		}()
+		me = goid()
+		f()
+	}()
+	<-done
+	for _, a := range takeAborts() {
+		if a.Goid == me {
+			x := a
+			ab = &x
+		}
+	}
+	return
 }
